@@ -58,8 +58,8 @@ fn focus_for(prop: &str, args: &Args) -> Focus {
     },
     "C05" => Focus {
       flavours: no_oneshot.clone(),
-      classes: vec![(Class::Blocking, 5), (Class::Batch, 3), (Class::Timed, 3), (Class::Lifecycle, 1)],
-      p_early_exit: (1, 5),
+      classes: vec![(Class::Blocking, 5), (Class::Batch, 3), (Class::Timed, 3), (Class::Lifecycle, 1), (Class::Mixed, 3)],
+      p_early_exit: (1, 3),
       p_gremlin: (1, 2),
       small_caps: true,
       big: false,
@@ -100,7 +100,14 @@ fn main() {
   vh_core::chaos::install();
   let prop = args.prop.clone();
   let focus = focus_for(&prop, &args);
-  let tiny = args.get("tiny").is_some() || cfg!(miri);
+  // odd shards of the race-sensitive properties run tiny scenarios (a few operations per thread,
+  // change points concentrated on the first steps): thousands of short races instead of long scripts
+  let race_props = ["C01", "C04", "C05", "C06", "C09"];
+  let tiny = match args.get("tiny") {
+    Some("0") => false,
+    Some(_) => true,
+    None => cfg!(miri) || (race_props.contains(&prop.as_str()) && args.shard % 2 == 1),
+  };
   let mut res = ShardResult::new(&prop, "chan_stress", args.seed, args.shard);
   res.rule = "one evaluation = one generated closed scenario (flavour x class x capacity x thread counts x op script) \
     executed on real threads under schedule chaos; non-trivial = operations of at least two threads overlapped in real \
@@ -116,6 +123,7 @@ fn main() {
   }
   let max_exec = args.get_u64("max-exec", u64::MAX);
   let mut exec: u64 = 0;
+  let mut inc_dumps = 0u32;
   let mut by_flavour: BTreeMap<String, u64> = BTreeMap::new();
   let mut sigs_seen: std::collections::HashSet<String> = Default::default();
   while args.time_left() && exec < max_exec {
@@ -165,6 +173,16 @@ fn main() {
     if res.samples.len() < 3 && a.overlapping {
       res.sample(json!({"scenario": o.scn.describe(), "events": o.evs.len(),
         "history_excerpt": history_json(&o.evs, 14)}), 3);
+    }
+    if let (Some(st), false) = (&o.stuck, inconclusive.is_empty()) {
+      // keep what was seen for triage (not a verdict)
+      if inc_dumps < 3 {
+        inc_dumps += 1;
+        let path = format!("{}/INCONCLUSIVE-{}-{}-{}-sh{}-{}.json", args.replay_dir, prop, o.scn.flavour.name(), o.scn.class.name(), args.shard, o.scn.exec);
+        let _ = std::fs::write(&path, serde_json::to_string(&json!({"scenario": o.scn.describe(), "reason": st.reason, "blocked": st.blocked,
+          "model_enabled": st.model_enabled, "nudge_released": st.nudge_released, "workers_asleep": st.parked, "worker_states": st.parked_detail,
+          "canary_max_gap_us": st.canary_max_gap_us, "complete": o.complete, "history": history_json(&o.evs, 300)})).unwrap_or_default());
+      }
     }
     for why in inconclusive {
       if why.starts_with("HARNESS-PANIC") {
